@@ -39,7 +39,7 @@ def gen_plan(seed, tier="quick", variant=None):
     rng = random.Random(seed * 2654435761 % (2 ** 31) + 9)
     thorough = tier == "thorough"
     if variant is None:
-        variant = rng.choice(["faulty", "faulty", "churn", "clean", "assign", "overlap", "overlap"])
+        variant = rng.choice(["faulty", "faulty", "churn", "clean", "assign", "overlap", "overlap", "stopfault", "stopfault"])
     nb = rng.randint(1, 3)
     ntop = rng.randint(1, 3)
     topics = []
@@ -77,6 +77,7 @@ def gen_plan(seed, tier="quick", variant=None):
         "shuffle_ties": rng.random() < 0.5,
         "client": {"timeout_ms": timeout_ms, "discover": rng.random() < 0.5, "retry": [round(rng.choice([0.01, 0.05, 0.2]), 3) for _ in range(3)]},
         "members": members, "connect_timeout": 0.5,
+        "late_timers": random.Random(seed * 7919 + 5).choice([0.0, 0.0, 0.0, 0.005, 0.05]),
     }
     ops = []
     if variant in ("churn", "faulty"):
@@ -118,7 +119,16 @@ def gen_plan(seed, tier="quick", variant=None):
             elif kind == "cut_conns":
                 faults.append({"t": round(rng.random() * horizon, 6), "act": "cut_conns", "node": None})
             elif kind == "refuse":
-                faults.append({"kind": "connect", "nth": rng.randint(0, 8), "what": rng.choice(["refused", "blackhole"]), "count": rng.choice([1, 3])})
+                faults.append({"kind": "connect", "nth": rng.randint(0, 8), "what": rng.choice(["refused", "blackhole", "sync_fail"]), "count": rng.choice([1, 3])})
+    if variant in ("faulty", "churn") and nb > 1 and rng.random() < 0.3:
+        # a broker - maybe the coordinator - is taken out of service for good: its requests time out, the coordinator has moved
+        faults.append({"t": round(0.5 + rng.random() * 1.5, 6), "act": "retire_broker", "node": rng.randint(1, nb)})
+    if variant in ("churn", "assign", "overlap") and rng.random() < 0.4:
+        # partitions are added to a subscribed topic between two generations led by the same member
+        t_add = round(0.6 + rng.random() * 1.2, 6)
+        faults.append({"t": t_add, "act": "add_partitions", "topic": rng.choice(names), "n": rng.randint(1, 3)})
+        phantoms.append({"name": "pha", "topics": names, "session_ms": 1500, "join_t": round(t_add + 0.05 + rng.random() * 0.5, 6), "end": rng.choice(["stay", "leave"]),
+                         "end_t": 3.0, "join_delay": rng.choice([0.001, 0.02])})
     if variant == "overlap":
         # several retriable errors from different sources overlapping one (slow) rejoin
         if not phantoms:
@@ -133,6 +143,42 @@ def gen_plan(seed, tier="quick", variant=None):
             if rng.random() < 0.6:
                 f["delay"] = round(rng.choice([0.05, 0.12, 0.25]), 6)
             faults.append(f)
+    if variant == "stopfault":
+        # stop() of a member whose consumers need time to commit, while its heartbeats fail or the group rebalances:
+        # the window between "consumers told to shut down" and "coordinator stopping"
+        for t in topics:
+            t["msgs"] = rng.choice([2, 5])
+        for m in members:
+            m["every_n"] = rng.choice([0, 0, 3])
+            m["every_ms"] = rng.choice([0, 0, 500])
+            m["hb_ms"] = rng.choice([50, 100])
+        i = rng.randrange(nmem)
+        t0 = round(0.8 + rng.random() * 1.2, 6)
+        ops.append({"t": t0, "op": "stop", "m": i})
+        if rng.random() < 0.5:
+            ops.append({"t": round(t0 + 0.3 + rng.random(), 6), "op": "start", "m": i})
+        if rng.random() < 0.8:
+            members[i]["every_n"] = members[i]["every_ms"] = 0  # only shutdown commits
+        if rng.random() < 0.8:
+            for tn in members[i]["topics"]:
+                ops.append({"t": round(t0 - rng.choice([0.03, 0.08, 0.2]), 6), "op": "append", "topic": tn, "n": rng.randint(1, 3), "all": True})
+        slow = rng.choice(["delay", "delay", "delay", "delay", "cut_before", "silent", "error"])
+        for nth in range(0, rng.randint(1, 3)):
+            f = {"api": 8, "node": None, "nth": nth, "act": slow, "from_t": round(t0 - 0.01, 6)}
+            if slow == "delay":
+                f["delay"] = round(rng.choice([0.3, 0.5, 0.8]), 6)
+            if slow == "error":
+                f.update(code=rng.choice([14, 15, 16, 7]), count=rng.choice([1, 2]))
+            faults.append(f)
+        how = rng.choice(["hb_error", "hb_silent", "phantom", "hb_error"])
+        hb_from = round(t0 - 0.1 + rng.random() * 0.3, 6)
+        if how == "hb_error":
+            faults.append({"api": 12, "node": None, "nth": 0, "act": "error", "code": rng.choice([27, 25, 22, 16, 15]), "count": rng.choice([1, 3, 20]), "from_t": hb_from})
+        elif how == "hb_silent":
+            faults.append({"api": 12, "node": None, "nth": 0, "act": "silent", "count": rng.choice([1, 3]), "from_t": hb_from})
+        else:
+            phantoms.append({"name": "phs", "topics": names, "session_ms": 1500, "join_t": round(t0 - 0.15 + rng.random() * 0.4, 6), "end": "stay", "end_t": 3.5,
+                             "join_delay": rng.choice([0.02, 0.2])})
     t_end = max([horizon] + [f["t"] for f in faults if "t" in f] + [o["t"] for o in ops] + [p["end_t"] for p in phantoms] + [p["join_t"] for p in phantoms])
     plan = {"family": FAMILY, "seed": seed, "tier": tier, "cfg": cfg, "ops": ops, "faults": faults, "phantoms": phantoms,
             "t_faults_end": round(t_end + 0.05, 6)}
@@ -307,9 +353,10 @@ def _run(w, plan):
                 start_member(members[o["m"]])
         elif k == "append":
             t = cl.topics[o["topic"]]
-            part = t.partitions[sorted(t.partitions)[0]]
-            part.append([(b"ka", b"%s+%d" % (o["topic"].encode(), part.leo), None) for _ in range(o["n"])], 0, False, 0)
-            cl._wake(part)
+            for pid_ in (sorted(t.partitions) if o.get("all") else sorted(t.partitions)[:1]):
+                part = t.partitions[pid_]
+                part.append([(b"ka", b"%s+%d" % (o["topic"].encode(), part.leo), None) for _ in range(o["n"])], 0, False, 0)
+                cl._wake(part)
         elif k == "ph_join":
             ph = Phantom(o["name"], o["topics"], o["session_ms"], o["join_delay"])
             phantoms[o["name"]] = ph
@@ -491,7 +538,14 @@ def _oracles(w, plan, res, members, gc, g):
                 if tp[0] not in subs.get(owners[0], []):
                     res.violate("C15", "C15:partition-assigned-to-non-subscriber", "generation %d: %s/%d given to %s" % (rec["generation"], tp[0], tp[1], owners[0]))
                     break
-            extra = set(assigned) - all_parts
+            # partitions created while the leader was working (after the generation began, before its SyncGroup) may or may
+            # not be in the metadata it loaded: those are allowed, not required
+            allowed = set(all_parts)
+            for mid, ts in subs.items():
+                for t in ts:
+                    for p in rec.get("partitions_at_sync", {}).get(t, []):
+                        allowed.add((t, p))
+            extra = set(assigned) - allowed
             if extra:
                 res.violate("C15", "C15:unknown-partition-assigned", "generation %d: %r" % (rec["generation"], sorted(extra)[:4]))
             if len(set(tuple(sorted(v)) for v in subs.values())) == 1:
